@@ -83,9 +83,13 @@ def lib_pop(inds, problem):
     return [sc.impl_fitness(i, problem) for i in inds]
 
 
-def run_selection(step, problem, rep, src, inds, k):
+def run_selection(step, problem, rep, src, inds, k, form="list"):
+    """`form`: how the population is handed over -- a list, a tuple, or a one-shot iterator (what a
+    SequenceStep hands to its second step)"""
+    given = {"list": lambda: list(inds), "tuple": lambda: tuple(inds), "iterator": lambda: iter(list(inds)),
+             "generator": lambda: (i for i in list(inds))}[form]()
     try:
-        return list(step.apply(problem, SequentialEvaluator(), rep, src, list(inds), k, 1))
+        return list(step.apply(problem, SequentialEvaluator(), rep, src, given, k, 1))
     except NeedMore:
         raise
     except Exception as e:  # noqa: BLE001
@@ -96,13 +100,14 @@ def run_selection(step, problem, rep, src, inds, k):
 # tournament
 # ----------------------------------------------------------------------------------------
 
-def tournament_case(h: Harness, shape, aggs, kind, ts, wr, k, script_or_source, tag):
+def tournament_case(h: Harness, shape, aggs, kind, ts, wr, k, script_or_source, tag, form="list"):
     """one run; `script_or_source` is a recording source already wrapping the draws"""
     rep = StubRep(1)
     comps = {o: [0] for o in set(shape)}
     problem, inds = build(rep, shape, aggs, comps, kind, [False])
     rec = script_or_source
-    res = run_selection(TournamentSelection(ts, wr), problem, rep, rec, inds, k)
+    res = run_selection(TournamentSelection(ts, wr), problem, rep, rec, inds, k, form)
+    h.count(f"tournament:population-as-{form}")
     pop = lib_pop(inds, problem)
     return pop, res, rec
 
@@ -181,12 +186,12 @@ def check_tournament_random(h: Harness):
         kind = rng.choice(["multi", "single-max", "single-min"])
         if rng.random() < 0.3:
             rec = Recording(NativeRandomSource(rng.randrange(10**6)))
-            pop, res, rec = tournament_case(h, shape, aggs, kind, ts, wr, k, rec, "native")
+            pop, res, rec = tournament_case(h, shape, aggs, kind, ts, wr, k, rec, "native", rng.choice(["list", "iterator", "generator", "tuple"]))
             emit_tournament(h, pop, res, rec, list(rec.script), ts, wr, k, kind, "native")
         else:
             script = [rng.randrange(0, 40) for _ in range(ts * k + 2)]
             rec = TwoStreamSource(script)
-            pop, res, rec = tournament_case(h, shape, aggs, kind, ts, wr, k, rec, "scripted")
+            pop, res, rec = tournament_case(h, shape, aggs, kind, ts, wr, k, rec, "scripted", rng.choice(["list", "iterator", "generator", "tuple"]))
             emit_tournament(h, pop, res, rec, script, ts, wr, k, kind, "scripted")
     # empty population / tournament size 0: outside the precondition, the model predicts the error
     for (n, ts, k) in [(0, 2, 1), (0, 1, 0), (2, 0, 1), (2, 0, 0)]:
@@ -204,7 +209,9 @@ def check_tournament_random(h: Harness):
 def lexicase_run(shape, comps, mins, eps, k, rec):
     rep = StubRep(len(mins))
     problem, inds = build(rep, shape, {o: 0 for o in set(shape)}, comps, "multi", mins)
-    res = run_selection(LexicaseSelection(epsilon=eps), problem, rep, rec, inds, k)
+    # (the form the population arrives in rotates with the case; no extra random draw)
+    form = ("list", "iterator", "tuple", "generator")[(len(shape) + k + len(mins)) % 4]
+    res = run_selection(LexicaseSelection(epsilon=eps), problem, rep, rec, inds, k, form)
     return lib_pop(inds, problem), res
 
 
